@@ -11,7 +11,8 @@ import (
 // Define defines/sets interface value to symbol in current scope.
 func (e *Env) Define(symbol string, value interface{}) error {
 	if value == nil {
-		return e.DefineValue(symbol, NilValue)
+		// a nil of its own: Addr must not hand out the shared NilValue
+		return e.DefineValue(symbol, reflect.New(NilValue.Type()).Elem())
 	}
 	return e.DefineValue(symbol, reflect.ValueOf(value))
 }
@@ -53,7 +54,7 @@ func (e *Env) DefineGlobalValue(symbol string, value reflect.Value) error {
 // Set interface value to the scope where symbol is first found.
 func (e *Env) Set(symbol string, value interface{}) error {
 	if value == nil {
-		return e.SetValue(symbol, NilValue)
+		return e.SetValue(symbol, reflect.New(NilValue.Type()).Elem())
 	}
 	return e.SetValue(symbol, reflect.ValueOf(value))
 }
